@@ -102,3 +102,27 @@ example :
       (fun t kv => t.insert exPolicy kv.1 kv.2) (BT.leaf [])
     t.toList.map (·.1) = [1, 2, 3, 4, 5, 6, 7, 8, 9] ∧ t.get 6 = some 60 ∧ t.get 10 = none ∧
       (match t with | .node (.node _ _) _ => true | _ => false) = true := by decide
+
+/-- **overflow chains keep exactly one owner through internal rebalancing.**  Rotating a key through
+the parent in either direction (`redistribute_internal_from_left/right`) and merging two internal
+nodes (`merge_internal_nodes`) leave the sequence of slots — each with its chain — unchanged, so
+ownership (`Owned`: every chain holds its key's tail, no chain has two owners, none is leaked) is
+kept with no allocation and no free; a leaf merge drops the separator and frees its chain, and
+ownership holds for what remains. -/
+theorem C18_chain_ownership (loc : Nat) (st : ChainStore) (t : Trio) (h : Owned loc st t.slots) :
+    (∀ t', rotRight t = some t' → Owned loc st t'.slots) ∧
+    (∀ t', rotLeft t = some t' → Owned loc st t'.slots) ∧
+    Owned loc st (mergeInternal t) ∧
+    Owned loc (dropSeparator st t.2.1) (t.1 ++ t.2.2) :=
+  ⟨fun t' h' => by rw [rotRight_slots t t' h']; exact h,
+   fun t' h' => by rw [rotLeft_slots t t' h']; exact h,
+   h,
+   dropSeparator_owned loc st t.1 t.2.2 t.2.1 h⟩
+
+/-- non-vacuity of `Owned`, and the rotation really moves a slot -/
+example :
+    let loc := 2
+    let (st1, a) := prepareSlot loc {} { key := [1, 1, 1, 1], ovf := none }
+    let (st2, p) := prepareSlot loc st1 { key := [5, 5, 5, 5], ovf := none }
+    (rotRight ([a], p, [])).map (fun t => (t.1.length, t.2.1.key, t.2.2.length)) = some (0, [1, 1, 1, 1], 1) ∧
+      st2.chains.length = 2 ∧ a.ovf = some 0 ∧ p.ovf = some 1 := by decide
